@@ -1,7 +1,9 @@
 (* C17 - copies are independent: ownership obligation over the copy table regenerated from the current source.
-   (Determinism of solves and equality of copies are decided dynamically; see checks/C17.py.) *)
-From Coq Require Import List String Bool.
-From SV Require Import CopyGraph CopyGraph_Proofs.
+   (Determinism of solves and equality of copies are decided dynamically; see checks/C17.py.)
+   Second part: the pseudo-random generator every solver owns (class Random, the only source of randomness in a solve),
+   modelled in RandomModel.v and compared with the class and with SoPlexBase::setRandomSeed / copies on every run. *)
+From Coq Require Import List String Bool NArith QArith.
+From SV Require Import CopyGraph CopyGraph_Proofs RandomModel Random_Proofs.
 From SVG Require Import Gen_Copy.
 Import ListNotations.
 
@@ -33,4 +35,50 @@ Print Assumptions C17_unsafe_entry_would_alias.
 Example C17_ex_table_nontrivial : In ("_tolerances"%string, DShared, HCloneShared) gen_copy_table /\ In ("_realLP"%string, DRaw, HCloneHeap) gen_copy_table.
 Proof. split; vm_compute; tauto. Qed.
 Example C17_ex_shared_assignment_is_unsafe : table_safe [("_tolerances"%string, DShared, HAssign)] = false.
+Proof. reflexivity. Qed.
+
+(* ---------------------------------------------------------------------------------------------------------------- *)
+(* The generator (RandomModel.v mirrors random.h member by member, wrap-around written out). *)
+
+(* Re-seeding forgets the history: whatever two generators did before, after setSeed(s) they are in the same state and
+   produce the same stream - the stream is a function of the seed alone ("same seed, same results"). *)
+Theorem C17_rng_reseed_forgets_history : forall r1 r2 h1 h2 s ops,
+  snd (rrun r1 (h1 ++ RSeed s :: ops)) = snd (rrun r1 h1) ++ snd (rrun (set_seed s) ops) /\
+  fst (rrun r1 (h1 ++ RSeed s :: ops)) = fst (rrun r2 (h2 ++ RSeed s :: ops)).
+Proof. exact stream_function_of_seed. Qed.
+Print Assumptions C17_rng_reseed_forgets_history.
+
+(* All members stay 32-bit values and every returned numerator is at most UINT32_MAX, for every operation sequence. *)
+Theorem C17_rng_state_and_outputs_in_range : forall ops r, rng_wf r -> (forall s, In (RSeed s) ops -> (s < M32)%N) ->
+  rng_wf (fst (rrun r ops)) /\ Forall (fun v => (v < M32)%N) (snd (rrun r ops)).
+Proof. exact rrun_wf. Qed.
+Print Assumptions C17_rng_state_and_outputs_in_range.
+
+(* so next_random() lies in [0,1] and next(minimum, maximum) in [minimum, maximum] (exact arithmetic; the rounding of the
+   double operations is not modelled) *)
+Theorem C17_rng_value_in_unit_interval : forall v, (v < M32)%N -> (0 <= qval v /\ qval v <= 1)%Q.
+Proof. exact qval_unit. Qed.
+Print Assumptions C17_rng_value_in_unit_interval.
+
+Theorem C17_rng_next_in_range : forall mn mx r, (mn <= mx -> 0 <= r -> r <= 1 -> mn <= qnext mn mx r /\ qnext mn mx r <= mx)%Q.
+Proof. exact qnext_in_range. Qed.
+Print Assumptions C17_rng_next_in_range.
+
+(* The xorshift component never reaches 0, its absorbing state (this is what SOPLEX_MAX(seed, 1u) in setSeed is for):
+   from any well-formed state with a non-zero xorshift word, for every sequence of setSeed / next. *)
+Theorem C17_rng_xorshift_never_zero : forall ops r, rng_wf r -> xor_seed r <> 0%N -> (forall s, In (RSeed s) ops -> (s < M32)%N) ->
+  xor_seed (fst (rrun r ops)) <> 0%N.
+Proof. exact xor_state_nonzero. Qed.
+Print Assumptions C17_rng_xorshift_never_zero.
+
+Theorem C17_rng_seeded_state_wellformed : forall s, (s < M32)%N -> rng_wf (set_seed s).
+Proof. exact set_seed_wf. Qed.
+Print Assumptions C17_rng_seeded_state_wellformed.
+
+(* the default generator (Random(0), as constructed inside every SPxSolverBase) and its first value *)
+Example C17_ex_rng_default :
+  rng_default = mkrng 0 231794730 3135323351 1712429826 84810976 /\ snd (next_random rng_default) = 1080053375%N.
+Proof. vm_compute. split; reflexivity. Qed.
+(* the wrap-around matters: the seed 4294967295 - 123456788 makes the linear word 0 before SOPLEX_MAX *)
+Example C17_ex_rng_zero_guard : lin_seed (mkrng 0 (at_least_one ((123456789 + 4171510507) mod M32)) 1 1 1) = 1%N.
 Proof. reflexivity. Qed.
